@@ -2174,6 +2174,8 @@ fn stream_cfgs() -> Vec<StreamCfg> {
     for gap_ms in [ST_IDLE_MS - 1, ST_IDLE_MS, ST_IDLE_MS + 1] {
         v.push(StreamCfg { wave1: 1, gap_ms, ..base(vec![0, 0], ST_IDLE_MS) });
     }
+    // ... and a different question arriving in the recycled slot just before the idle timeout
+    v.push(StreamCfg { wave1: 1, gap_ms: ST_IDLE_MS - 1, ..base(vec![0, 1], ST_IDLE_MS) });
     v
 }
 
